@@ -91,6 +91,31 @@ Proof.
   intro C; apply closedb_iff in C; vm_compute in C; discriminate.
 Qed.
 
+(* the memo-resolved branch of CharacterMatrix.reconstruct_taxon_namespace inside unify_taxon_namespaces:
+   list 2 (tree 2 = A, a of the case-sensitive ns2) is migrated first and fills the shared memo (both -> one
+   taxon of the new case-insensitive namespace); the matrix then meets its rows A, a through the memo and
+   refuses the second one: no row is dropped (2 before, 2 after), the error is raised *)
+Lemma unify_shared_memo_collision_l :
+  let st := ex_state [Append 2 2 (SMigrate true); NewMat 2; NewSeq 0 4; NewSeq 0 5; NewDs;
+                      DsAdd 0 (ObjList 2); DsAdd 0 (ObjMat 0)] in
+  let o := Unify 0 None true in
+  Closed st /\ disciplined st o = true /\ snd (step ex_lower st o) = ORecon
+  /\ m_rows (getmat st 0) = [4; 5] /\ t_refs (gettree (fst (step ex_lower st o)) 2) = [6; 6]
+  /\ m_rows (getmat (fst (step ex_lower st o)) 0) = [5; 6].
+Proof.
+  split; [apply closedb_iff; vm_compute; reflexivity|]. vm_compute. repeat split.
+Qed.
+
+Lemma unify_shared_memo_collision_given_l :
+  let st := ex_state [Append 2 2 (SMigrate true); NewMat 2; NewSeq 0 5; NewSeq 0 4; NewDs;
+                      DsAdd 0 (ObjMat 0); DsAdd 0 (ObjList 2)] in
+  let o := Unify 0 (Some 0) false in
+  Closed st /\ disciplined st o = true /\ snd (step ex_lower st o) = ORecon
+  /\ length (m_rows (getmat st 0)) = 2 /\ length (m_rows (getmat (fst (step ex_lower st o)) 0)) = 2.
+Proof.
+  split; [apply closedb_iff; vm_compute; reflexivity|]. vm_compute. repeat split.
+Qed.
+
 (* the documented merge: tree 3 carries a / A / A (taxa 5 4 4 of the case-sensitive ns2); migrated into
    the case-insensitive ns0 all three nodes end on the one taxon 0 ("A") *)
 Lemma migrate_case_merge_l :
